@@ -62,7 +62,14 @@ TRound == /\ IsEvent("round")
           /\ UNCHANGED cfg
 
 PoolCalls(k) == SelectSeq(calls, LAMBDA c : c.pool = k)
-AllowedIn(k, p) == AllowedP(cfg[k], tabs[k], rd, sN[k], sP[k], calls, PoolCalls(k), p)
+\* Second pass for the recorded finding "anomaly detectors shared across node pools" (known_findings.json): the clause (An)
+\* - enough consecutive rounds above the evicting pool's own high threshold - is switched off for the nodes that several
+\* pools select, and for those only; every other clause stays.  (A call the shared detector let through too early is also
+\* attributed to another pool by the first pass, which shifts the cursor: such segments are re-validated as a whole.)
+TolerateShared == "VERIF_TOLERATE_C18_SHARED" \in DOMAIN IOEnv
+SharedNodes == {n \in DOMAIN sN[1] : Cardinality({k \in 1..NP : n \in Measured(tabs[k])}) > 1}
+StreakFor(s) == IF TolerateShared THEN [n \in DOMAIN s |-> IF n \in SharedNodes THEN StreakCap ELSE s[n]] ELSE s
+AllowedIn(k, p) == AllowedP(cfg[k], tabs[k], rd, StreakFor(sN[k]), StreakFor(sP[k]), calls, PoolCalls(k), p)
 \* was this pod's node already relieved by an earlier pool of this round, and as which kind of source ("" = no)?
 \* (diagnostics only)
 Again(k, p) == IF p \notin DOMAIN rd.pods THEN ""
